@@ -106,6 +106,8 @@ def run(ctx, model=None):
              "m": rng.choice([1, 2, 6, 11]), "rb": rng.choice(ks), "lb": rng.choice(ks), "tb": rng.choice(ks),
              "lt": rng.choice(ks), "fd": rng.random() < 0.5}
         check_main(ctx, p, model, seen)
+    for m_ in (53, 54, 100, 1000):
+        check_main(ctx, dict(base, m=m_, w=1, l=1), model, seen)
     for big in (2 ** 53 + 1, 12345678901234567891, 2 ** 64 + 3):
         for fd in (False, True):
             p = dict(base, seed=big, fd=fd)
